@@ -12,7 +12,7 @@
                         (non-empty quantifier blocks and guards; lemmas are universally closed by
                         the code, definitions are checked to be closed). *)
 From Coq Require Import List String Bool.
-From Anthem Require Import Syntax.Fol Syntax.Asp Model.Problem Model.ProblemPrint Model.Strong Model.External.
+From Anthem Require Import Syntax.Fol Syntax.Asp Model.Problem Model.ClosedFormula Model.Strong Model.External.
 Import ListNotations.
 
 Definition var_named (x : string) : bool := negb (String.eqb x "").
